@@ -26,6 +26,10 @@ def fmt_dt(d):
     return d.strftime("%Y-%m-%d-%H:%M") if (d.hour or d.minute) else d.strftime("%Y-%m-%d")
 
 
+def d_full(d):
+    return d.strftime("%Y-%m-%d-%H:%M")
+
+
 def hm(m):
     return "%02d:%02d" % (m // 60, m % 60)
 
@@ -222,6 +226,20 @@ def gen(rnd, *, core=False, res_choices=(60, 60, 30, 15), subslot=True, alap=Non
                 else:
                     lv.append((s, s + timedelta(days=rnd.randint(1, 3))))
             r["leaves"] = lv
+        if leaves and rnd.random() < 0.15:
+            # resource-level 'vacation' lines (single day and ranges)
+            vs = []
+            for _ in range(rnd.randint(1, 2)):
+                s = base + timedelta(days=rnd.randrange(0, max(2, min(14, span_days))))
+                vs.append((s, None) if rnd.random() < 0.5 else (s, s + timedelta(days=rnd.randint(1, 2))))
+            r["vacs"] = vs
+        if leaves and rnd.random() < 0.15:
+            # blocking bookings: 'booking "B" <instant> +<duration>' (calendar time, slot aligned)
+            bs = []
+            for _ in range(rnd.randint(1, 2)):
+                s = base + timedelta(days=rnd.randrange(0, max(2, min(14, span_days))), minutes=rnd.randrange(0, 24 * 60, res))
+                bs.append((s, rnd.choice([res, 2 * res, 6 * 60, 24 * 60, 3 * res])))
+            r["bookings"] = bs
         if limits and rnd.random() < 0.3:
             r["limits"] = {rnd.choice(["dailymax", "weeklymax"]): rnd.choice([1, 2, 3, 4, 6])}
         resources.append(r)
@@ -461,6 +479,8 @@ def render(m, refrnd=None, precrnd=None, extra_header=None, scenarios=None, trai
             L.append("%s  leaves annual %s" % (ind, fmt_dt(s) if e is None else "%s - %s" % (fmt_dt(s), fmt_dt(e))))
         for s, e in r.get("vacs", []):
             L.append("%s  vacation %s" % (ind, fmt_dt(s) if e is None else "%s - %s" % (fmt_dt(s), fmt_dt(e))))
+        for s, mins in r.get("bookings", []):
+            L.append('%s  booking "B" %s +%s' % (ind, d_full(s), ("%dh" % (mins // 60)) if mins % 60 == 0 else ("%dmin" % mins)))
         if r.get("limits"):
             L.append("%s  %s" % (ind, limits_text(r["limits"])))
         if r.get("rate") is not None:
@@ -493,6 +513,8 @@ def render(m, refrnd=None, precrnd=None, extra_header=None, scenarios=None, trai
         L.append('%stask %s "%s" {' % (i, path[-1], t.get("name", path[-1])))
         if t.get("milestone"):
             L.append(i + "  milestone")
+        if t["container"] and t.get("alloc"):
+            L.append("%s  allocate %s" % (i, ", ".join(t["alloc"])))   # inherited by children without an allocation of their own
         if "effort_min" in t:
             L.append("%s  effort %dmin" % (i, t["effort_min"]))
             a = ", ".join(t["alloc"])
